@@ -361,6 +361,8 @@ MACRO_BINDS = [
     [["x", [1, 2]], ["y", 200], ["a", {"b": 320}], ["b", 400]],
     [["x", 100], ["y.k", 210], ["a.b.c", 330]],
     [],
+    [["p.a", 500], ["x", 100], ["p.y", {"k": 520}]],
+    [["p.q.y", 600], ["p.a.b", 510], ["a", 300], ["y", 200]],
 ]
 
 
@@ -411,8 +413,10 @@ class C12(Prop):
         for _ in range(260 if quick else 8000):
             e = macro_expr(rng, rng.randint(1, 3), [])
             binds = rng.choice(MACRO_BINDS)
+            packaged = any(p.startswith("p.") for p, _ in binds)
+            pkg = rng.choice(["p", "p.q", "p", ""]) if packaged else ("" if rng.random() < 0.85 else rng.choice(["p", "p.q"]))
             for rn in ("I", "C"):
-                cases.append({"kind": "macro", "runner": rn, "pkg": "" if rng.random() < 0.85 else rng.choice(["p", "p.q"]),
+                cases.append({"kind": "macro", "runner": rn, "pkg": pkg,
                               "decls": [], "binds": binds, "e": e})
         return cases
 
